@@ -36,6 +36,8 @@ Insecure(c) == c.ca = "none" /\ SkipOn(c.skip)
 Consistent(c, o, r) == (o.ca1 = (Insecure(c) \/ r = "ca1")) /\ (o.ca2 = (Insecure(c) \/ r = "ca2"))
 \* the two handshakes of one observation are made one after the other: while a refresh is possible they may see different roots
 Explained(c, o) == (\E r \in c.roots : o.ca1 = (Insecure(c) \/ r = "ca1")) /\ (\E r \in c.roots : o.ca2 = (Insecure(c) \/ r = "ca2"))
+\* the same for a client that was built when the configuration was loaded and has been kept since
+ExplainedKept(c, o) == (\E r \in c.roots : o.ca1Kept = (Insecure(c) \/ r = "ca1")) /\ (\E r \in c.roots : o.ca2Kept = (Insecure(c) \/ r = "ca2"))
 \* every observation narrows the possibilities to what was seen; the current usable content of the file stays possible
 \* for a refreshing configuration, because its watcher may pick it up at any moment
 Narrow(a, obs, cur) == [i \in DOMAIN a |->
@@ -47,6 +49,7 @@ Causes ==
   LET a == After
       obs == E.obs
       bad == {i \in DOMAIN a : ~Explained(a[i], obs[i])}
+      badKept == {i \in DOMAIN a : Explained(a[i], obs[i]) /\ ~ExplainedKept(a[i], obs[i])}
   IN (IF bad = {} THEN {}
       ELSE LET i == CHOOSE x \in bad : \A y \in bad : x <= y
                c == a[i]
@@ -55,6 +58,7 @@ Causes ==
                ELSE IF c.ca # "none" /\ (obs[i].ca1 /\ obs[i].ca2) THEN "skip-verify-wins-over-ca-or-trusts-everything"
                ELSE IF c.ca = "none" THEN "skip-verify-not-honoured"
                ELSE "trusted-cas-differ:" \o c.ca \o ":" \o E.op})
+     \cup (IF badKept # {} THEN {"client-built-before-the-rotation-does-not-follow-it"} ELSE {})
      \cup (IF \E i, j \in DOMAIN a : i < j /\ Same(a[i], a[j]) /\ obs[i].ptr # "nil" /\ obs[j].ptr # "nil" /\ obs[i].ptr # obs[j].ptr THEN {"identical-settings-do-not-share-one-configuration"} ELSE {})
      \cup (IF E.aliveWatchers > Cardinality({[ca |-> a[i].ca, s |-> SkipOn(a[i].skip), n |-> a[i].interval] : i \in {j \in DOMAIN a : Refreshing(a[j])}})
            THEN {"superseded-watcher-still-running"} ELSE {})
